@@ -617,4 +617,136 @@ Proof.
   destruct (write (tbl_put t r) (tl fs) r) as [[[ok2 t2] fs2] e2]. inversion Hex. reflexivity.
 Qed.
 
+(** ** histories in which the tail of the file changes between the attempts *)
+
+Lemma sums_from_firstn a : forall acc s,
+  firstn a (sums_from hash HS acc s) = sums_from hash HS acc (firstn a s).
+Proof.
+  induction a as [|a IH]; intros acc s; [reflexivity|].
+  destruct s as [|x s]; [reflexivity|]. cbn [sums_from firstn]. rewrite IH. reflexivity.
+Qed.
+
+Lemma recorded_tail_edit (r : rev) s s' :
+  recorded r s -> firstn (r_applied r) s' = firstn (r_applied r) s -> recorded r s'.
+Proof.
+  intros [Hk Hh] E. split.
+  - assert (length (firstn (r_applied r) s') = length (firstn (r_applied r) s)) as L by (rewrite E; reflexivity).
+    rewrite !firstn_length in L. lia.
+  - rewrite Hh. unfold sums. rewrite !sums_from_firstn, E. reflexivity.
+Qed.
+
+(** What the executor leaves behind for a file: the stored revision, if any, is
+    complete by its own account or records a prefix of the file. *)
+Definition stored_ok (f : file) (t : list rev) : Prop :=
+  forall r, tbl_get t (f_version f) = Some r ->
+    r_applied r = r_total r \/ recorded r (f_stmts f).
+
+Lemma rv_recorded f kind m :
+  m <= length (f_stmts f) ->
+  recorded (rv hash (f_version f) (length (f_stmts f)) kind (sums hash HS (f_stmts f)) m) (f_stmts f).
+Proof. intros H. split; [exact H|reflexivity]. Qed.
+
+Lemma execute_stored_ok f (t : list rev) fs o t' fs' es :
+  stored_ok f t ->
+  (forall r, tbl_get t (f_version f) = Some r -> r_applied r <> r_total r) ->
+  execute f t fs = (o, t', fs', es) -> stored_ok f t'.
+Proof.
+  intros Hinv Hpend Hex.
+  assert (exists r0, pre hash HS f t r0) as (r0 & Hpre).
+  { destruct (tbl_get t (f_version f)) as [r|] eqn:G.
+    - exists r. right. split; [exact G|]. destruct (Hinv r G) as [E|Hr]; [destruct (Hpend r eq_refl E)|exact Hr].
+    - exists (new_rev (f_version f) (length (f_stmts f))). left. split; [exact G|reflexivity]. }
+  assert (recorded r0 (f_stmts f)) as Hr0.
+  { destruct Hpre as [[_ ->]|[_ H]]; [split; [simpl; lia|reflexivity]|exact H]. }
+  pose proof (pre_version hash HS f t r0 Hpre) as Hv0.
+  destruct (execute_shape hash hash_eqb HS hash_eqb_spec f t r0 Hpre fs o t' fs' es Hex) as [Hsh _].
+  assert (Hput : forall r', r_version r' = f_version f ->
+            (r_applied r' = r_total r' \/ recorded r' (f_stmts f)) -> stored_ok f (tbl_put t r')).
+  { intros r' Hv Hr' r Hg. rewrite <- Hv, tbl_get_put_same in Hg. inversion Hg; subst. exact Hr'. }
+  assert (Hcur : forall c, r_applied r0 + c <= length (f_stmts f) ->
+            r_version (cur hash HS f r0 c) = f_version f /\ recorded (cur hash HS f r0 c) (f_stmts f) /\
+            r_total (cur hash HS f r0 c) = length (f_stmts f) /\ r_applied (cur hash HS f r0 c) = r_applied r0 + c).
+  { intros c Hc. unfold cur. destruct (c =? 0) eqn:E.
+    - apply Nat.eqb_eq in E. subst c. rewrite Nat.add_0_r. simpl. repeat split; auto; apply Hr0.
+    - simpl. repeat split; auto. }
+  assert (Hsto : forall c, r_applied r0 + c <= length (f_stmts f) ->
+            r_version (sto hash HS f r0 c) = f_version f /\ recorded (sto hash HS f r0 c) (f_stmts f)).
+  { intros c Hc. unfold sto. destruct (c =? 0); [split; assumption|]. simpl. repeat split; auto. }
+  destruct Hsh as [_ -> _|c ok3 Hc _ _ ->|c s ok3 Hn _ _ ->|c s Hn _ _ ->].
+  - exact Hinv.
+  - destruct (Hcur c) as (Hv & Hrec & Ht & Ha); [lia|]. destruct (Hsto c) as (Hvs & Hrs); [lia|].
+    destruct ok3; apply Hput; [simpl; exact Hv|left; simpl; lia|exact Hvs|right; exact Hrs].
+  - assert (r_applied r0 + c < length (f_stmts f)) as Hlt by (apply nth_error_Some; congruence).
+    destruct (Hcur c) as (Hv & Hrec & Ht & Ha); [lia|]. destruct (Hsto c) as (Hvs & Hrs); [lia|].
+    destruct ok3; apply Hput; [simpl; exact Hv| |exact Hvs|right; exact Hrs].
+    right. destruct Hrec as [A B]. split; simpl; assumption.
+  - assert (r_applied r0 + c < length (f_stmts f)) as Hlt by (apply nth_error_Some; congruence).
+    destruct (Hsto c) as (Hvs & Hrs); [lia|]. apply Hput; [exact Hvs|right; exact Hrs].
+Qed.
+
+(** Histories of a file: attempts through the store (arbitrary faults, only
+    while the file is pending) interleaved with edits that leave the applied
+    part alone (tail-only edits; any edit while nothing is recorded). *)
+Inductive file_history : file -> list rev -> Prop :=
+| FH_first f t : tbl_get t (f_version f) = None -> file_history f t
+| FH_attempt f t fs o t' fs' es :
+    file_history f t ->
+    (forall r, tbl_get t (f_version f) = Some r -> r_applied r <> r_total r) ->
+    execute_st f t fs = (o, t', fs', es) -> file_history f t'
+| FH_tail_edit f f' t :
+    file_history f t -> f_version f' = f_version f ->
+    (forall r, tbl_get t (f_version f) = Some r -> r_applied r <> r_total r /\
+       firstn (r_applied r) (f_stmts f') = firstn (r_applied r) (f_stmts f)) ->
+    file_history f' t.
+
+Lemma file_history_stored_ok f t : file_history f t -> stored_ok f t.
+Proof.
+  induction 1 as [f t Hn|f t fs o t' fs' es _ IH Hpend Hex|f f' t _ IH Hv Hed].
+  - intros r Hg. congruence.
+  - destruct (hd false fs) eqn:Hh.
+    { rewrite (execute_st_read_error _ _ _ Hh) in Hex. inversion Hex; subst. exact IH. }
+    rewrite (execute_st_read_ok _ _ _ Hh) in Hex.
+    destruct (execute f t (tl fs)) as [[[o0 t0] fs0] es0] eqn:E. inversion Hex; subst.
+    exact (execute_stored_ok f t (tl fs) o0 t' fs' es IH Hpend E).
+  - intros r Hg. rewrite Hv in Hg. destruct (Hed r Hg) as [Hp Hs].
+    destruct (IH r Hg) as [E|Hr]; [contradiction|]. right. exact (recorded_tail_edit r _ _ Hr Hs).
+Qed.
+
+(** After any such history, a partially applied file whose applied part is
+    then edited is refused under every fault stream, with the first edited
+    statement named when the lookup and the first write succeed. *)
+Lemma C12_history_refuse_lemma f f_new t (r : rev) :
+  file_history f t -> f_version f_new = f_version f ->
+  tbl_get t (f_version f) = Some r -> 0 < r_applied r -> r_applied r <> r_total r ->
+  firstn (r_applied r) (f_stmts f_new) <> firstn (r_applied r) (f_stmts f) ->
+  forall fs o t' fs' es, execute_st f_new t fs = (o, t', fs', es) ->
+  collision_at (f_stmts f) (f_stmts f_new) (r_applied r) \/
+  (exec_events es = [] /\ t' = t /\ o <> SExec ODone /\
+   (hd false fs = false -> hd false (tl fs) = false ->
+      exists i, o = SExec (OHistory i) /\ 1 <= i <= r_applied r)).
+Proof.
+  intros HH Hv Hget Hpos Hpart Hne fs o t' fs' es Hex.
+  destruct (file_history_stored_ok _ _ HH r Hget) as [E|Hrec]; [contradiction|].
+  rewrite <- Hv in Hget.
+  destruct (C12_refuse_st_lemma t fs f_new r (f_stmts f) Hget Hpos Hrec Hne _ _ _ _ Hex)
+    as [Hcol|(He & Ht' & Ho & _ & _ & Hh)]; [left; exact Hcol|right; auto].
+Qed.
+
+Lemma C12_history_tail_lemma f f_new t (r : rev) :
+  file_history f t -> f_version f_new = f_version f ->
+  tbl_get t (f_version f) = Some r -> r_applied r <> r_total r ->
+  firstn (r_applied r) (f_stmts f_new) = firstn (r_applied r) (f_stmts f) ->
+  exists t' es r',
+    execute_st f_new t [] = (SExec ODone, t', [], es) /\
+    journal es = map (pair (f_version f_new)) (skipn (r_applied r) (f_stmts f_new)) /\
+    tbl_get t' (f_version f_new) = Some r' /\
+    r_applied r' = length (f_stmts f_new) /\ r_total r' = length (f_stmts f_new) /\ r_hashes r' = [] /\
+    (forall v', v' <> f_version f_new -> tbl_get t' v' = tbl_get t v').
+Proof.
+  intros HH Hv Hget Hpart Hsame.
+  destruct (file_history_stored_ok _ _ HH r Hget) as [E|Hrec]; [contradiction|].
+  rewrite <- Hv in Hget.
+  exact (C12_tail_st_lemma t f_new r (f_stmts f) Hget Hrec Hsame).
+Qed.
+
 End Proofs.
